@@ -18,6 +18,7 @@ import os
 import re
 import sys
 
+import astnorm
 import py2coq
 
 
@@ -40,6 +41,32 @@ class _Replace(ast.NodeTransformer):
                 else:
                     self.visit(old)
         return node
+
+
+def _args_text(fn):
+    """the parameter list without type annotations: an annotation is evaluated once, when the `def` is executed, and has no
+    other effect; the ones dropped here are pure expressions (names, attributes, subscripts, literals, `|`), so evaluating
+    them cannot do anything either.  Any other annotation stays in the text (and is pinned by the skeleton)."""
+    def pure(e):
+        if isinstance(e, (ast.Name, ast.Constant)):
+            return True
+        if isinstance(e, ast.Attribute):
+            return pure(e.value)
+        if isinstance(e, ast.Subscript):
+            return pure(e.value) and pure(e.slice)
+        if isinstance(e, (ast.Tuple, ast.List)):
+            return all(pure(x) for x in e.elts)
+        if isinstance(e, ast.BinOp) and isinstance(e.op, ast.BitOr):
+            return pure(e.left) and pure(e.right)
+        return False
+    a = copy.deepcopy(fn.args)
+    for x in a.posonlyargs + a.args + a.kwonlyargs + [y for y in (a.vararg, a.kwarg) if y is not None]:
+        if x.annotation is not None and pure(x.annotation):
+            x.annotation = None
+    txt = ast.unparse(a)
+    if fn.returns is not None and not pure(fn.returns):
+        txt += " -> " + ast.unparse(fn.returns)
+    return txt
 
 
 def _is_logging(st):
@@ -66,7 +93,7 @@ def function_skeleton(fn, slices, elide=None):
         for nm in sl.get("inline", []) or []:
             inlined.setdefault(nm, sl["name"])
     count = {}
-    lines = ["def %s(%s)%s" % (fn.name, ast.unparse(fn.args), "".join(" @" + ast.unparse(d) for d in fn.decorator_list))]
+    lines = ["def %s(%s)%s" % (fn.name, _args_text(fn), "".join(" @" + ast.unparse(d) for d in fn.decorator_list))]
 
     def rhs_text(name, value):
         k = count.get(name, -1) + 1
@@ -149,7 +176,7 @@ def function_skeleton(fn, slices, elide=None):
 def module_skeleton(path, funcs, slices, elide=None):
     """funcs: function names; returns {"module": [...], fn: [...]}; elide: callback tree -> {id(statement): placeholder}"""
     src = open(path).read()
-    tree = ast.parse(src)
+    tree = astnorm.parse_file(path)  # dict(k=v) is read as {'k': v}; NEW single-use temporaries are substituted forward (harness/astnorm.py)
     skip = elide(tree) if elide is not None else None
     out = {"module": []}
     for st in tree.body:
@@ -163,11 +190,39 @@ def module_skeleton(path, funcs, slices, elide=None):
     return out
 
 
+_BRIDGED_LINE = re.compile(r"^(\s*)([A-Za-z_]\w*) = <bridged>$")
+
+
+def canonical_runs(lines):
+    """A maximal run of consecutive lines `name = <bridged>` of one block (same indentation, pairwise different names) is
+    put into alphabetical order.  These are the assignments whose right-hand sides the SSA slice translator substitutes by
+    DATA FLOW (most recent assignment in source order), so what an order of such statements means is decided by the
+    bridge lemmas of the generated expressions, not by the text; reordering independent ones must not alarm."""
+    out, i = [], 0
+    while i < len(lines):
+        m = _BRIDGED_LINE.match(lines[i]) if isinstance(lines[i], str) else None
+        if not m:
+            out.append(lines[i])
+            i += 1
+            continue
+        j, run, names = i, [], []
+        while j < len(lines) and isinstance(lines[j], str):
+            mj = _BRIDGED_LINE.match(lines[j])
+            if not mj or mj.group(1) != m.group(1):
+                break
+            run.append(lines[j])
+            names.append(mj.group(2))
+            j += 1
+        out.extend(sorted(run) if len(set(names)) == len(names) else run)
+        i = j
+    return out
+
+
 def compare(got, want):
     import difflib
     diffs = []
     for k in sorted(set(got) | set(want)):
-        a, b = want.get(k, []), got.get(k, [])
+        a, b = canonical_runs(want.get(k, [])), canonical_runs(got.get(k, []))
         if a != b:
             d = list(difflib.unified_diff(a, b, "expected:" + k, "current:" + k, lineterm="", n=1))
             diffs.append("\n".join(d[:60]))
@@ -188,7 +243,7 @@ def _base_name(t):
 
 
 def names_function_skeleton(fn, names):
-    lines = ["def %s(%s)%s" % (fn.name, ast.unparse(fn.args), "".join(" @" + ast.unparse(d) for d in fn.decorator_list))]
+    lines = ["def %s(%s)%s" % (fn.name, _args_text(fn), "".join(" @" + ast.unparse(d) for d in fn.decorator_list))]
 
     def visit(stmts, depth):
         ind = "  " * depth
@@ -238,7 +293,7 @@ def names_function_skeleton(fn, names):
 
 
 def names_skeleton(path, funcs, names):
-    tree = ast.parse(open(path).read())
+    tree = astnorm.parse_file(path)
     out = {}
     for f in funcs:
         fn = py2coq.find_function(tree, f)
